@@ -12,7 +12,7 @@ pub fn meta(tier: Tier) -> Meta {
             "Cases = (planner in Auto/Scalar/Sse/Avx, f32|f64, direction, n, entry point in process/in-place/out-of-place/immutable, chunk count, input). \
              (a) complete unit-impulse basis for every n in 1..={nb} (one case = all n columns of the matrix through one entry point, single-chunk calls, analytic reference column exp(-+2*pi*i*j*k/n) in double-double); \
              (b) every n in 0..={dense} with impulses at 0,1,n/2,n-1, a dense uniform vector and one rotating structured family, all 4 planners x 4 entry points; \
-             (b2) every n up to 8192 (quick) / 65536 (thorough) in f32 on the three concrete planners with rotating entry point and direction, every 8th length also in f64; (b3) every prime up to 2^15 / 2^18 on the scalar and AVX planners; \
+             (b2) every n up to 8192 (quick) / 65536 (thorough) in f32 on the three concrete planners with rotating entry point and direction, every 8th length also in f64; (b3) every prime up to 2^15 / 2^18 on the scalar and AVX planners; (b4) n <= 64 with 2, 3 and 4 chunks incl. silent (all-zero) chunks on every entry point; (b5) every prime with 23-smooth p-1 (Rader on every planner) up to 2^17 / 2^20; \
              (c) {cases} proptest-drawn cases over constructed length families up to {nmax} (Rader/Bluestein primes, Cunningham primes, prime powers, semiprimes, smooth numbers, butterfly products and planner thresholds, AVX row residues, smooth*bigprime), 16 input families, 1-3 chunks; \
              (d) exact finite-field instantiation of the portable code for every n up to 768 / 4096: output must equal sum_j x_j*omega^(-+jk) in GF(p^2) with zero tolerance (see C14 for the full version). \
              Oracle: relative L2 distance to an independent reference DFT (own radix-2+Bluestein FFT in f64 for f32 results, in double-double for f64 results, validated against a naive double-double DFT at start-up) <= 4*B, B = 16*eps*log2(2n). \
@@ -109,6 +109,42 @@ pub fn worker(ctx: &mut Ctx) {
         }
         if ctx.done() {
             return;
+        }
+    }
+    // (b4) small lengths with 2 and 4 chunks (two-at-a-time SIMD paths) incl. silent chunks, every entry point
+    for n in 1..=64usize {
+        for ty in TYS {
+            if !ctx.mine() {
+                continue;
+            }
+            for planner in PLANNERS {
+                for entry in ENTRIES {
+                    for (k, fam) in [(2usize, "uniform"), (4, "silence_mix"), (3, "silence_mix")] {
+                        ctx.exec(&Case::new("C01", "numeric", planner, ty, DIRS[(n + k) % 2], n).with_entry(entry).with_chunks(k).with_input(InputSpec::fam(fam, n as u64 + k as u64)));
+                    }
+                }
+            }
+        }
+    }
+    // (b5) complete sparse families at larger bounds: every prime whose p-1 is 23-smooth (Rader on every planner)
+    {
+        let bound = match ctx.tier {
+            Tier::Quick => 1usize << 17,
+            Tier::Thorough => 1 << 20,
+        };
+        let fams = Families::new(bound);
+        let rader: Vec<usize> = fams.fams.iter().find(|f| f.0 == "prime_rader_23smooth").map(|f| f.1.clone()).unwrap_or_default();
+        for &q in rader.iter().rev() {
+            if q <= primes_to || !ctx.mine() {
+                continue;
+            }
+            let input = InputSpec::fam("uniform", q as u64);
+            for (pi, planner) in [Planner::Scalar, Planner::Avx, Planner::Sse].iter().enumerate() {
+                ctx.exec(&Case::new("C01", "numeric", *planner, TYS[(q / 2 + pi) % 2], DIRS[(q / 4 + pi) % 2], q).with_entry(ENTRIES[(q / 2 + pi) % 4]).with_input(input.clone()));
+            }
+            if ctx.done() {
+                return;
+            }
         }
     }
     // (b3) every prime (Rader/Bluestein decisions, primitive roots, chirps are per-prime) up to a larger bound
